@@ -56,6 +56,10 @@ def qcow2(p):
     h[0:32] = struct.pack('>4sIQIIQ', magic, version & 0xffffffff, bf_offset,
                           p.get('bf_size', 0) & 0xffffffff, p.get('cluster_bits', 16), size)
     h[72:80] = struct.pack('>Q', feat)
+    if p.get('bf_name_hex') and 0 < bf_offset < len(h):
+        # the backing file NAME inside the image (header sector or behind it): any bytes, not necessarily UTF-8
+        name = bytes.fromhex(p['bf_name_hex'])
+        h[bf_offset:bf_offset + len(name)] = name[:max(0, len(h) - bf_offset)]
     exts = p.get('exts')
     if exts is not None and version == 3:
         # qcow2 v3 as qemu-img writes it: header_length at 100 and a chain of header extensions (type, length, data padded
